@@ -69,17 +69,30 @@ theorem printed_order (graded reverse : Bool) (ts : List (Expo × S)) :
       (fun i j => Index.glexLe graded reverse ((ts.map (·.1)).getD i []) ((ts.map (·.1)).getD j []) = true) :=
   Index.glexsort_sorted graded reverse _
 
-/-! ### text level, integer coefficients, default display strings (Np/Model/PrintText.lean, Np/Proofs/PrintText.lean) -/
+/-! ### text level, default display strings (Np/Model/PrintText.lean, Np/Proofs/PrintText.lean): any coefficient type whose
+texts are safe tokens (`Codec.Lawful`), integers in particular -/
 section text
 open Np.PrintText
 
+/-- **the reader is exact on every well-formed token list, for every lawful coefficient codec**: if the codec's reader
+reads back what its printer writes and every coefficient text is an optional `-` followed by a non-empty text free of `+`,
+`-`, `*` that does not start with `q` (integers; floats in positional notation such as `0.5`, `-2.25`; not `1e+20`, not
+`(1+2j)`), then an honest reader of the text (`readStr`: split at signs, then at `*`, regroup `**`, look the names up)
+returns exactly the printed terms -/
+theorem text_reads_tokens_codec {C : Type} (K : Codec C) (hK : K.Lawful) (names : List Nat) (hn : names.Nodup)
+    (toks : List (Tok C)) (hne : toks ≠ []) (h : ∀ t ∈ toks, TokWF K names t) :
+    readStr K names (renderStr K names toks) = some (toks.map fun t => (t.coef, t.expo)) :=
+  readStr_renderStr K hK names hn toks hne h
+
+/-- `str()` of Python / numpy integers is such a codec -/
+theorem int_codec_lawful : intCodec.Lawful := intCodec_lawful
+
 /-- **the printed text reads back as exactly the polynomial**: for integer coefficients, names `q<i>`, `*` and `**`,
-and every setting of the three display-order flags, an honest reader of the text (`readStr`: split at signs, then at
-`*`, regroup `**`, look the names up) applied to the text `renderStr` prints for the terms `ts` returns the non-zero
-terms in printing order — and those denote the same polynomial as `ts` -/
+and every setting of the three display-order flags, the reader applied to the text `renderStr` prints for the terms `ts`
+returns the non-zero terms in printing order — and those denote the same polynomial as `ts` -/
 theorem text_roundtrip (names : List Nat) (hn : names.Nodup) (g r i : Bool) (ts : List (Expo × Int))
     (hl : ∀ t ∈ ts, t.1.length = names.length) (hne : printOrder g r i ts ≠ []) :
-    ∃ l, readStr names (renderStr names (printTokens g r i ts)) = some l ∧
+    ∃ l, readStr intCodec names (renderStr intCodec names (printTokens g r i ts)) = some l ∧
       denT names (l.map fun t => (t.2, t.1)) = denT names ts := by
   refine ⟨_, readStr_print names hn g r i ts hl hne, ?_⟩
   rw [List.map_map]
@@ -90,14 +103,14 @@ theorem text_roundtrip (names : List Nat) (hn : names.Nodup) (g r i : Bool) (ts 
 
 /-- the zero polynomial prints `0`, which reads back as the single constant term 0 -/
 theorem text_roundtrip_zero (names : List Nat) :
-    readStr names (renderStr names []) = some [((0 : Int), names.map fun _ => 0)] :=
+    readStr intCodec names (renderStr intCodec names []) = some [((0 : Int), names.map fun _ => 0)] :=
   readStr_renderStr_nil names
 
-/-- the reader is exact on any well-formed token list (not only the printer's) -/
+/-- the reader is exact on any well-formed token list of integers (not only the printer's) -/
 theorem text_reads_tokens (names : List Nat) (hn : names.Nodup) (toks : List (Tok Int)) (hne : toks ≠ [])
-    (h : ∀ t ∈ toks, TokWF names t) :
-    readStr names (renderStr names toks) = some (toks.map fun t => (t.coef, t.expo)) :=
-  readStr_renderStr names hn toks hne h
+    (h : ∀ t ∈ toks, TokWF intCodec names t) :
+    readStr intCodec names (renderStr intCodec names toks) = some (toks.map fun t => (t.coef, t.expo)) :=
+  readStr_renderStr intCodec intCodec_lawful names hn toks hne h
 end text
 
 /-- non-vacuity: 2*q1 - q0 - 3 under the default display flags (graded, not reverse, inverse) -/
